@@ -435,3 +435,127 @@ class RedirReal:
             self.client.close()
         finally:
             self.env.close()
+
+
+# ---------------------------------------------------------------------------------------- C47
+
+class WsgiReal:
+    """A real WSGIContainer behind a real HTTPServer over a MemStream.  step('serve', [r, a])
+    sends request r (texts as code-point lists) and lets the WSGI application behave as a says;
+    the projection is the environ the application saw and the response the client received."""
+
+    KNOWN = {"REQUEST_METHOD", "SCRIPT_NAME", "PATH_INFO", "QUERY_STRING", "REMOTE_ADDR", "SERVER_NAME", "SERVER_PORT",
+             "SERVER_PROTOCOL", "CONTENT_TYPE", "CONTENT_LENGTH", "wsgi.version", "wsgi.url_scheme", "wsgi.input",
+             "wsgi.errors", "wsgi.multithread", "wsgi.multiprocess", "wsgi.run_once"}
+
+    def __init__(self, cfg, variant=0):
+        from tornado import httpserver, wsgi
+        from .vloop import Env
+        self.env = Env()
+        self.cfg = cfg
+        self.variant = variant
+        self.app_spec = None
+        self.captured = None
+        self.calls = 0
+        import logging
+        for name in ("tornado.access", "tornado.application"):   # per-request / exception logs: keep stderr quiet
+            lg = logging.getLogger(name)
+            if not lg.handlers:
+                lg.addHandler(logging.NullHandler())
+            lg.propagate = False
+        self.container = wsgi.WSGIContainer(self._app)
+        self.server = httpserver.HTTPServer(self.container, protocol=None if cfg["proto"] == "http" else cfg["proto"])
+        self.conn = None
+        self.consumed = 0
+        self.n = 0
+
+    def _app(self, environ, start_response):
+        self.calls += 1
+        cap = {}
+        for k, v in environ.items():
+            if k == "wsgi.input":
+                cap[k] = v.read()
+            elif k in ("wsgi.errors",):
+                continue
+            else:
+                cap[k] = v
+        self.captured = cap
+        a = self.app_spec
+        status = "%d %s" % (a["code"], s2t(a["reason"]))
+        write = start_response(status, [(s2t(k), s2t(v)) for k, v in a["hdrs"]])
+        chunks = [bytes(c) for c in a["chunks"]]
+        if a["viaWrite"] and chunks:
+            write(chunks[0])
+            chunks = chunks[1:]
+        return iter(chunks) if self.variant & 1 else chunks
+
+    def _env_proj(self):
+        e = self.captured
+
+        def txt(k):
+            v = e.get(k)
+            return t2s(v) if isinstance(v, str) else ([0, 0, 0] if v is not None else [0])
+
+        def opt(k):
+            return [t2s(e[k])] if isinstance(e.get(k), str) else ([] if k not in e else [[0]])
+        http = frozenset((tuple(t2s(k)), tuple(t2s(v) if isinstance(v, str) else [0])) for k, v in e.items() if k.startswith("HTTP_"))
+        p = {"method": e.get("REQUEST_METHOD"), "script": txt("SCRIPT_NAME"), "path": txt("PATH_INFO"), "query": txt("QUERY_STRING"),
+             "name": txt("SERVER_NAME"), "port": txt("SERVER_PORT"), "protocol": e.get("SERVER_PROTOCOL"),
+             "scheme": e.get("wsgi.url_scheme"), "ctype": opt("CONTENT_TYPE"), "clen": opt("CONTENT_LENGTH"),
+             "http": http, "input": list(e.get("wsgi.input", b""))}
+        extra = sorted(k for k in e if k not in self.KNOWN and not k.startswith("HTTP_"))
+        if extra:
+            p["extra_keys"] = extra
+        return p
+
+    def step(self, act, args):
+        from .httpsim import ServerConn, split_responses
+        if act != "serve":
+            raise ValueError(act)
+        r, a = args
+        self.app_spec = a
+        self.captured = None
+        if self.conn is None or self.conn.closed():
+            self.conn = ServerConn(self.env, self.server)
+            self.consumed = 0
+        target = bytes(r["path"]) + (b"?" + bytes(r["query"]) if r["query"] else b"")
+        lines = [r["method"].encode() + b" " + target + b" " + r["ver"].encode()]
+        hl = [(bytes(k), bytes(v)) for k, v in r["hdrs"]]
+        if r["hasHost"]:
+            hl.insert(len(hl) if self.variant & 2 else 0, (b"Host" if not self.variant & 4 else b"hOST", bytes(r["host"])))
+        lines += [k + b": " + v for k, v in hl]
+        data = b"\r\n".join(lines) + b"\r\n\r\n" + bytes(r["body"])
+        if self.variant & 8:
+            self.conn.send_chunks([data[:7], data[7:]])
+        else:
+            self.conn.send(data)
+        self.env.settle()
+        self.n += 1
+        out = {"n": self.n}
+        if self.captured is None:
+            out["env"] = {"raised": True}
+        else:
+            out["env"] = self._env_proj()
+        raw = self.conn.received()[self.consumed:]
+        self.consumed += len(raw)
+        msgs = split_responses(raw) if raw else []
+        if len(msgs) != 1 or not msgs[0][5]:
+            out["resp"] = {"code": 0, "count": len(msgs), "raw": raw[:80].decode("latin1")}
+        else:
+            ver, code, reason, headers, body, _ = msgs[0]
+            groups = {}
+            for nme, v in headers:
+                groups.setdefault(nme.lower(), []).append(t2s(v))
+            out["resp"] = {"code": code, "reason": t2s(reason), "body": list(body),
+                           "groups": [{"n": t2s(k), "vs": groups[k]} for k in sorted(groups)]}
+        if self.env.loop.uncaught:
+            out["uncaught"] = len(self.env.loop.uncaught)
+        return out
+
+    def close(self):
+        try:
+            if self.conn is not None:
+                self.conn.peer_close()
+            self.env.settle()
+        finally:
+            self.env.close()
